@@ -169,9 +169,7 @@ def grid_plain_cases():
         # element writes: i < len and i == len only (documented stricter mode beyond that)
         for i in range(n + 1):
             for key in (str(i), '"%d"' % i) + (("a.length",) if i == n else ()) + (("a.length - 1",) if i == n - 1 else ()):
-                for v in ("7", "undefined", '"s"', "[0]", "a"):
-                    if v == "a":
-                        continue
+                for v in ("7", "undefined", '"s"', "[0]"):
                     _case(out, prog(recv, "(a[%s] = %s)" % (key, v)), "a[i] = v", True)
         for ln in [str(i) for i in range(n + 1)] + ['"0"', "-0", "a.length", "-1", "1.5", "NaN", '"x"']:
             _case(out, prog(recv, "(a.length = %s)" % ln), "a.length = n", True)
@@ -394,7 +392,7 @@ def typed_index_cases():
         for a in args2:
             _case(out, "var t = new %s([1, 2, 3, 4]); var s; try { s = t.subarray(%s); s[0] = 9 } %s __out(t); s"
                   % (k, a, CATCH), "subarray", True, kind=k)
-        for src in ("[7, 8]", "new Uint8Array([7, 8])", "new Float64Array([7.5, -8.5])", "new %s([7, 8])" % k, "[]",
+        for src in ("[7, 8]", "new Uint8Array([7, 8])", "new Float64Array([7.5, -8.5])", "new %s([300, -8])" % k, "[]",
                     '"78"', "5", "null", "{length: 1, 0: 9}"):
             for off in [""] + IDX:
                 if src == "{length: 1, 0: 9}" and off not in ("", "0", "1"):
